@@ -918,6 +918,14 @@ class Algebra:
         if len(q) > 1:
             res = self.mul(res, self._base_pow(q, e))
         for fid, mult in a.den:
+            y = enorm(emul(e, -mult))
+            if type(y) is int and y % 2 and eis_num(e) and Fraction(e).denominator % 2 == 0:
+                # (F^(2k))^(1/2) = |F|^k : a denominator factor of even multiplicity leaves the root as an ODD power,
+                # which is F^k only where F > 0 (sqrt(1/F^2) = 1/|F|)
+                F = RF(self, dict(self.factors[fid]))
+                if self.sign(F) not in ("+",):
+                    res = self.mul(res, self.pow(self.abs(F), y))
+                    continue
             res = self.mul(res, self._base_pow(self.factors[fid], emul(e, -mult)))
         return res
 
